@@ -101,6 +101,16 @@ def main(tier):
                 elif any(spur(c) for c in x['conns'] if c['cps']):
                     key = 'checkpoint:out-and-back-excursion-dropped-from-displayed-route'
             vd.violation(key, t + ': ' + desc[:700], x)
+    # ---- design level: the range bookkeeping of nudgeOrthogonalRoutes as a state machine (explains F11 / F34)
+    rn = V.tlc(os.path.join(V.SPEC, 'avoid', 'NudgeRanges.tla'), os.path.join(V.SPEC, 'avoid', 'NudgeRanges.cfg'), timeout=300, cont=True, workers=4)
+    ev.add_tlc('design: unsatisfied-range bookkeeping of nudgeOrthogonalRoutes (2 segments, every set of unsatisfied variables)', rn)
+    for inv, st in V.violating_states(rn):
+        if st.get('pc') not in ('done', 'abort'):
+            continue
+        if inv == 'InBounds':
+            vd.violation('assertion:vsit->second->id!=freeSegmentID', 'design model NudgeRanges.tla: variables %s, unsatisfied %s -> ranges %s: %s' % (st.get('vs'), st.get('unsat'), st.get('ranges'), st.get('bad')), st)
+        elif inv == 'LeftBeforeRight':
+            vd.violation('assertion:vsi-1->id==channelLeftID', 'design model NudgeRanges.tla: variables %s, unsatisfied %s: %s' % (st.get('vs'), st.get('unsat'), st.get('bad')), st)
     ev.cov['evaluations'] = len(recs)
     ev.cov['distinct_nontrivial'] = nontriv
     ev.cov['traces_validated_against_impl'] = len(recs)
